@@ -421,6 +421,11 @@ func (rQuery *RunningQueryState) withLockDeleteQuery() {
 		return
 	}
 
+	if rQuery.isCancelled && rQuery.timeoutCancelFunc != nil {
+		// stop the goroutine that waits for the timeout of this query
+		rQuery.timeoutCancelFunc()
+	}
+
 	if !rQuery.isCancelled {
 		rQuery.timeoutCancelFunc()
 
